@@ -43,6 +43,7 @@ func C11(r *core.Run) {
 	panicScope(r, entriesC11...)
 	referenceEntryGuard(r)
 	lexerErrorsPositioned(r)
+	lexerSeesCallersText(r)
 	positionsAssigned(r)
 	positionsCoverConsumed(r)
 	errorListDiscipline(r)
